@@ -230,7 +230,7 @@ def history_work(item):
 
 
 DEVICE_LAYOUTS = {  # device wire list as a pattern over f<k> (free device wires), o<k> (other static wires), s (the static wire of the gates)
-    "f0 s": ["f0", "s"], "s f0 f1": ["s", "f0", "f1"], "f0 o0 f1 s": ["f0", "o0", "f1", "s"], "o0 s f0": ["o0", "s", "f0"], "f1 s o0 f0 o1": ["f1", "s", "o0", "f0", "o1"],
+    "f0 s": ["f0", "s"], "s f0 f1": ["s", "f0", "f1"], "f0 m0 s f1 (m0 only measured)": ["f0", "m0", "s", "f1"], "m0 s f0 (m0 only measured)": ["m0", "s", "f0"], "f0 o0 f1 s": ["f0", "o0", "f1", "s"], "o0 s f0": ["o0", "s", "f0"], "f1 s o0 f0 o1": ["f1", "s", "o0", "f0", "o1"],
 }
 
 
@@ -244,17 +244,19 @@ def device_history_work(item):
         static = S.int("static")
         others = [S.int(f"o{k}") for k in range(n_other)]
         free = [S.int(f"f{k}") for k in range(sum(1 for t in (DEVICE_LAYOUTS[layout] if layout else []) if t.startswith("f")))]
-        labs = [static] + others + free
+        has_m = (layout is not None and "m0" in DEVICE_LAYOUTS[layout]) or (layout is None and n_other == 2)
+        mo = [S.int("m0")] if has_m else []
+        labs = [static] + others + free + mo
         if len(labs) > 1:
             S.assume(z3.Distinct(*[x.z for x in labs]))
         if layout:
-            env = {"s": static, **{f"o{k}": others[k] for k in range(n_other)}, **{f"f{k}": free[k] for k in range(len(free))}}
+            env = {"s": static, **{f"o{k}": others[k] for k in range(n_other)}, **{f"f{k}": free[k] for k in range(len(free))}, **({"m0": mo[0]} if mo else {})}
             device = ("wires", [env[t] for t in DEVICE_LAYOUTS[layout]])
         else:
             device = ("none",)
         codes = [S.int("c0", 0, 3).concretize(0, 3)] + [S.int(f"c{k}", 0, 6).concretize(0, 6) for k in range(1, n)] + [6]
         allow = bool(S.bit("allow_resets"))
-        ok, reason = C.check_history(codes, [], [], None, allow, static, device=device, other_static=others)
+        ok, reason = C.check_history(codes, [], [], None, allow, static, device=device, other_static=others, measured_only=mo)
         return ok, reason, codes, allow
 
     ts = 0.0
@@ -340,12 +342,13 @@ def replay(p):
         layout, n_other, n = item
         others = [vals[f"o{k}"] for k in range(n_other)]
         if layout:
-            env = {"s": vals["static"], **{k: v for k, v in vals.items() if k[0] in "of" and k[1:].isdigit()}}
+            env = {"s": vals["static"], **{k: v for k, v in vals.items() if k[0] in "ofm" and k[1:].isdigit()}}
             device = ("wires", [env[t] for t in DEVICE_LAYOUTS[layout]])
         else:
             device = ("none",)
-        ok, reason = C.check_history(list(p["codes"]), [], [], None, bool(p["allow_resets"]), vals["static"], device=device, other_static=others)
-        return (not ok), f"device_resolve_dynamic_wires, codes={p['codes']} static wires (tape order)={others + [vals['static']]} device wires={device[1] if layout else None} allow_resets={p['allow_resets']}: {reason}"
+        mo = [vals["m0"]] if "m0" in vals else []
+        ok, reason = C.check_history(list(p["codes"]), [], [], None, bool(p["allow_resets"]), vals["static"], device=device, other_static=others, measured_only=mo)
+        return (not ok), f"device_resolve_dynamic_wires, codes={p['codes']} static wires (tape order)={others + [vals['static']]} measured-only wires={mo} device wires={device[1] if layout else None} allow_resets={p['allow_resets']}: {reason}"
     nz, na, nl = item[:3]
     labs = [vals[f"w{k}"] for k in range(nz + na + nl)]
     zeroed, any_state, loaned = labs[:nz], labs[nz:nz + na], labs[nz + na:]
